@@ -420,7 +420,11 @@ def write_evidence(ctx, level="proof"):
     if ctx.notes:
         ev["notes"] = ctx.notes
     ev["repo"] = REPO
-    with open(os.path.join(VERIF, "evidence", f"{ctx.prop}.json"), "w") as f:
+    # evidence/ holds the record of the last run against /repo itself; a self-validation run against
+    # another tree (VERIF_REPO: seeded changes, harmless refactorings, reverted fixes) must not overwrite it
+    d = os.path.join(VERIF, "evidence") if os.path.realpath(REPO) == "/repo" else os.path.join(VERIF, ".work", "evidence-other-tree")
+    os.makedirs(d, exist_ok=True)
+    with open(os.path.join(d, f"{ctx.prop}.json"), "w") as f:
         json.dump(ev, f, indent=1)
 
 
